@@ -53,6 +53,9 @@ quaternionf q_conj(const quaternionf &a) { return conj(a); }
 quaternionf q_rcp(const quaternionf &a) { return rcp(a); }
 quaternionf q_normalize(const quaternionf &a) { return normalize(a); }
 float q_dot(const quaternionf &a, const quaternionf &b) { return dot(a, b); }
+quaternionf q_slerp(const float f, const quaternionf &a, const quaternionf &b) { return slerp(f, a, b); }
+quaternionf q_neg(const quaternionf &a) { return -a; }
+quaternionf q_lerp(const float f, const quaternionf &a, const quaternionf &b) { return lerp(f, a, b); }
 vec3f q_mulv(const quaternionf &a, const vec3f &b) { return a * b; }
 quaternionf q_from_basis(const vec3f &vx, const vec3f &vy, const vec3f &vz) { return quaternionf(vx, vy, vz); }
 quaternionf q_from_ypr(const float &yaw, const float &pitch, const float &roll) { return quaternionf(yaw, pitch, roll); }
